@@ -146,3 +146,42 @@ def post_sj_view(r):
 
 def post_sj_source_untouched(r):
     return same_value(r.s, r.old_s) and r.result is not r.s
+
+
+# ------------------------------------------------------------------------------------------ X1: queries agree with str
+def post_query_agrees(r):
+    """the query returns exactly what the same str method returns on the base text with the same arguments"""
+    t = r.old_self._s
+    if r.mname == '__len__':
+        return r.result == len(t)
+    if r.mname == '__contains__':
+        return r.result == (operand_text_c(r.margs[0]) in t)
+    return r.result == getattr(t, r.mname)(*r.margs)
+
+
+def raises_like_str(r):
+    """an exception is allowed exactly when str raises the same type for the same call"""
+    t = r.old_self._s
+    try:
+        getattr(t, r.mname)(*r.margs)
+    except ValueError:
+        return r.exc == 'ValueError'
+    except TypeError:
+        return r.exc == 'TypeError'
+    return False
+
+
+# ------------------------------------------------------------------------------------------ X2 / Y3: case methods
+def post_case_text(r):
+    return r.result._s == getattr(r.old_self._s, r.mname)()
+
+
+def case_k_range(r):
+    if len(r.result._s) != len(r.old_self._s):
+        return (0, 0)
+    return (0, len(r.result._s))
+
+
+def post_case_view(r):
+    """when the conversion keeps the length, every position keeps its settings"""
+    return view_texts(r.result, r.k) == view_texts(r.old_self, r.k)
